@@ -56,22 +56,49 @@ class P(MetProp):
             else:
                 evals.append({"q": b64e(q), "qcoq": e["coq"], "start": start, "end": end, "step": step})
             return len(evals) - 1
-        kind = rng.choice(["vv", "vv", "vv", "lit", "lit", "lit", "litbool", "set", "set", "set", "vector", "vector", "vlit", "vlit", "nested", "nested"])
+        kind = rng.choice(["vv", "vv", "vv", "lit", "lit", "lit", "litbool", "set", "set", "set", "vector", "vector", "vlit", "vlit", "nested", "nested", "litchain"])
         by = rng.choice([["app"], ["app"], [], ["nosuch"]]) if not dense else ["app"]
         L = side("l", by, rng.choice([0, 0, 0, S]))
         R = side("r", by if rng.random() < 0.8 else ["app"])
         il, ir = add(L), add(R)
-        if kind == "nested":
+        if kind == "litchain":
+            # a comparison with a scalar over a vector-scalar arithmetic operation: (x * 3) > 5, 5 < (x - 1): the comparison applies to the result
+            aop = rng.choice(["*", "+", "-", "/"])
+            c1 = rng.choice([2, 3, 0.5, 4])
+            cop = rng.choice(CMP)
+            c2 = rng.choice([1, 2, 3, 5, 6])
+            X = L if rng.random() < 0.6 else m.mvector(rng.choice([2, 3, 6, 10]))
+            ix = add(X)
+            leftlit1 = rng.random() < 0.3
+            inner = m.mbin(aop, m.mlit(c1), X) if leftlit1 else m.mbin(aop, X, m.mlit(c1))
+            ii = add(inner)
+            rb = rng.random() < 0.4
+            leftlit2 = rng.random() < 0.4
+            e = m.mbin(cop, m.mlit(c2), inner, rb) if leftlit2 else m.mbin(cop, inner, m.mlit(c2), rb)
+            rels.append("MRelLit %d %d %s false %s %s" % (ix, ii, BOP[aop], cfloat(c1), "true" if leftlit1 else "false"))
+            rels.append("MRelLit %d %d %s %s %s %s" % (ii, add(e), BOP[cop], "true" if rb else "false", cfloat(c2), "true" if leftlit2 else "false"))
+        elif kind == "nested":
             # a parenthesised operation as the RIGHT operand of an operator of the same precedence class: x - (y + z), x / (y * z),
             # x % (y % z), x > (y > z), x unless (y unless z): the parentheses decide, at evaluation too
             op1, op2 = rng.choice([("-", "+"), ("-", "-"), ("/", "*"), ("/", "/"), ("%", "%"), ("*", "/"), (">", ">"), ("==", "!="), ("unless", "unless"), ("and", "unless"), ("-", "*"), ("^", "^"),
                                    # a NaN operand (x / 0, x % 0) under every comparison: all false except != (IEEE 754)
                                    ("<", "/0"), ("<=", "/0"), (">", "%0"), (">=", "/0"), ("==", "%0"), ("!=", "/0")])
+            # (round 11) a set operation that returns one operand unchanged (its other side is empty) under one more operation, and a comparison
+            # with a scalar over a vector-scalar arithmetic operation
+            extra = rng.random() < 0.3
+            if extra:
+                op1, op2 = rng.choice([("+", "or"), ("*", "unless"), ("-", "or"), ("+", "unless")])
             nan = op2 in ("/0", "%0")
             Y = side("r", ["app"]) if rng.random() < 0.5 else m.mvector(rng.choice([2, 3, 5]))
             Z = m.mvector(rng.choice([2, 3, 7])) if Y["k"] != "vector" or rng.random() < 0.5 else side("l", ["app"], 0)
             if nan:
                 op2, Z = op2[0], m.mvector(0)
+            if extra:
+                # an empty right side: a selector that matches nothing
+                nosel = [{"l": "side", "op": "=", "v": "none", "coq": "em %s %s" % (cbytes(b"side"), egen.sm_coq("=", "none"))}]
+                Z = m.mvec("sum", m.mrange("count_over_time", nosel, drop, rng_ns), None, grouping(["app"]))
+                if rng.random() < 0.5:
+                    Y, Z = (Z, Y) if op2 == "or" else (Y, Z)
             X = L if rng.random() < 0.6 else m.mvector(rng.choice([10, 16, 17, 100]))
             ix, iy, iz = add(X), add(Y), add(Z)
             inner = m.mbin(op2, Y, Z)
